@@ -24,6 +24,9 @@ Not part of the compiled driver (imports `Lean` for the two small macros).
 import Lean
 import ZtypV.Model.Bits64
 import ZtypV.Model.Bitfields
+/-- the ties proved so far: a later function's tie may rewrite its callees with them -/
+register_simp_attr go2lean_ties
+
 namespace Generated.Go
 
 /-! ### Go shift semantics, per operand width (count as a natural number) -/
@@ -68,7 +71,25 @@ macro "go2lean_tie " g:ident m:ident : tactic => do
   `(tactic| first
       | rfl
       | (unfold $g $m; simp only [shr8_and7]; first | done | rfl)
+      | (unfold $g $m; (try simp only [shr8_and7, go2lean_ties]); first | done | rfl)
       | (unfold $g $m; fail $msg))
+
+/-- a statement about every byte follows from its 256 instances -/
+theorem forall_uint8 {P : UInt8 → Prop} (h : ∀ i : Fin 256, P (UInt8.ofNat i.val)) (v : UInt8) : P v := by
+  have := h ⟨v.toNat, v.toNat_lt⟩
+  simpa using this
+
+/-- `go2lean_tie8 gen model v`: as `go2lean_tie` for a function of the single byte `v`; when
+    unfolding does not show the equality (the Go function was rewritten in another style) the
+    kernel evaluates both sides on all 256 bytes. -/
+macro "go2lean_tie8 " g:ident m:ident v:ident : tactic => do
+  let msg := Lean.Syntax.mkStrLit
+    s!"TIE BROKEN: the translation {g.getId} of the current Go source differs from the hand-written model {m.getId} on some byte"
+  `(tactic| first
+      | rfl
+      | (unfold $g $m; simp only [shr8_and7]; first | done | rfl)
+      | (revert $v; exact forall_uint8 (by decide +kernel))
+      | fail $msg)
 
 open Lean Elab Command in
 /-- `#tie_ok thm "label"`: print `TIE-OK label` iff `thm` exists and its axioms are within
